@@ -840,6 +840,18 @@ func (c *c19Case) afterOp(nd *c19Node, before map[string]bool, committedNow map[
 		if c.expiredAt(nd.height, h) {
 			continue
 		}
+		unsound := false
+		for _, e := range c.evs {
+			if c19Key2(e) == k && c.truth(e.ev) != "" {
+				unsound = true
+			}
+		}
+		if unsound {
+			// it got there unverified (raw CONS of the harness, or tryAddVote: reported as generated-rejected /
+			// accepted-unsound); the pool prunes by the evidence's own timestamp, which is not its block's time
+			c.o.Count("pending-dropped-unsound-evidence")
+			continue
+		}
 		c.o.Fail(c.step, "pending-dropped", fmt.Sprintf("node=%d key=%s state=%d", nd.k, k, nd.height))
 	}
 	allBasic := true
@@ -873,6 +885,9 @@ func (c *c19Case) recordCommit(nd *c19Node, evs []*c19Ev) map[string]bool {
 			c.o.Fail(c.step, "committed-twice", fmt.Sprintf("node=%d key=%s kind=%s", nd.k, k, e.kind))
 		}
 		sem := c19Sem(e.ev)
+		if nd.tainted[k] {
+			continue // put into this pool by the harness's raw CONS, never verified
+		}
 		if first, ok := nd.semLog[sem]; ok && first != k {
 			c.o.Fail(c.step, "double-sign-punished-twice", fmt.Sprintf("node=%d first=%s again=%s kind=%s", nd.k, first, k, e.kind))
 		} else {
@@ -1729,6 +1744,15 @@ func (c *c19Case) extend() {
 				evs = append(evs, c.freshEvidence())
 			}
 		}
+	}
+	if why == "proposer-default" || why == "proposer-all" {
+		var clean []*c19Ev
+		for _, e := range evs {
+			if !prop.tainted[c19Key2(e)] {
+				clean = append(clean, e)
+			}
+		}
+		evs = clean
 	}
 	if len(evs) > 0 {
 		verdict := map[string]bool{}
